@@ -65,6 +65,7 @@ LINES = [
     ("cpp", "#define X{n} 'a"),
     ("bang_in_lit_amp", "y{n} = h('!', \"!!\", &"),
     # alternative marks: only the first line of the block carries the mark
+    ("cpp_indented", "   #ifdef Y{n}"),
     ("doc_alt", "!* a{n} isn't \"code\""),
     ("predoc_alt", "  !| q{n}"),
 ]
@@ -358,6 +359,34 @@ def literal_shard(args):
                 st.stratum(site, 1)
             else:
                 st.stratum(site, 0)
+    # many literals in one statement (the masking pass numbers them: two-digit numbers must be put back as well)
+    for n, layout in itertools.product((9, 10, 11, 12, 13, 23), ("one-line", "continued")):
+        lits = [LITS[(first + j) % len(LITS)] for j in range(n)]
+        sep = ", &\n      " if layout == "continued" else ", "
+        names = [f"v{i}" for i in range(n)]
+        src = ("module m\n  implicit none\n  character(len=30), parameter :: arr(" + str(n) + ") = [" + sep.join(lits) + "]\n"
+               "  character(len=*), parameter :: " + sep.join(f"{a} = {l}" for a, l in zip(names, lits)) + "\nend module m\n")
+        r = fordrun.build_fast({"src/m.f90": src}, dict(display=["public", "private", "protected"]))
+        st.evaluations += 1
+        st.transitions += 1
+        site = "literal-masking/many"
+        inp = {"lines": src.split("\n"), "shape": f"{n} literals, {layout}", "lower": False}
+        feats = {"features": "many-literals", "complete": True, "n": n, "layout": layout}
+        st.nontrivial.add(core.digest([lits, layout]))
+        if r.error is not None or not r.project or not r.project.modules or "ERROR in file" in r.log or "Error parsing" in r.log:
+            st.violation("exception-on-wellformed-input", site, feats, inp, repr(r.error) + r.log[-200:], "parses")
+            st.stratum(site, 1)
+            continue
+        got = {v.name: (canon.nb(v.initial) or "<none>").replace("\\\\", "\\") for v in r.project.modules[0].variables}
+        want = {a: canon.nb(l) for a, l in zip(names, lits)}
+        want["arr"] = canon.nb("[" + ", ".join(lits) + "]")
+        st.states.add(core.digest(got))
+        if got != want:
+            bad = sorted(k for k in set(got) | set(want) if got.get(k) != want.get(k))
+            st.violation("literal-text-interpreted-or-altered", site, feats, inp, {k: got.get(k) for k in bad[:3]}, {k: want.get(k) for k in bad[:3]})
+            st.stratum(site, 1)
+        else:
+            st.stratum(site, 0)
     return st
 
 
